@@ -28,6 +28,9 @@ fn nt_md(op: MulDiv, w: u32, ax: u16, dx: u16, b: u32) -> bool {
 }
 
 pub fn run(ctx: &Ctx) {
+    if !crate::l0::L0_DIRECT {
+        ctx.note("the signatures of the public instruction functions in the working tree differ from the L0 tables: the harness was built without the direct calls, the L0 sweeps are skipped and the L1 (assembler + interpreter) and L3 (CLI) parts decide");
+    }
     ctx.set_rule("L0: all 2^16 AX x all 256 operands for byte MUL/IMUL/DIV/IDIV (enumerated); word forms on a signed boundary lattice for DX, AX and the operand plus proptest-generated 48-bit triples with the quotient-overflow boundary constructed (dividend = q*d+r, q within +-1 of the bounds); all 2^16 AX x AF x CF for the six adjusts, all AX for CBW/CWD; L1: every operand form; L3: faulting divisions through the CLI. Non-trivial = negative operand, significant upper half, quotient within +-1 of a bound, divisor in {0,1,-1}, adjust with low nibble > 9 / AL > 99h / AF or CF set.");
     ctx.assume("undefined flags (SF/ZF/AF/PF after MUL/IMUL, all six after DIV/IDIV, OF/SF/ZF/PF after AAA/AAS, OF after DAA/DAS, AF/CF/OF after AAM/AAD) are not compared; registers after a divide error are not compared");
     ctx.assume("accept sets: DAA/DAS (Family-manual pseudo-code vs later formulation), AAA/AAS (AL+6,AH+1 vs AX+106h), AAM SF/ZF from AL or AX, IDIV quotient exactly -128/-32768 (divide error on the 8086, legal later)");
